@@ -44,7 +44,8 @@ CLAIMED["C15"] = {
              "the CAS's expected operand is &msg->next of the pushed node, desired is the node, and msg->next is loaded from the head before the "
              "loop and never written after; extract and peek call the drain before any use of the heap on every path; the drain loop inserts "
              "every node once per iteration with key = that node's timestamp and reads the successor from the node; the head is touched only by "
-             "the four queue functions with their permitted access kinds; the buffer index is lid_to_rid(msg->dest). NOT decided: "
+             "the four queue functions with their permitted access kinds; the buffer index is lid_to_rid(msg->dest); extract removes the event it "
+             "hands out and peek only reads the heap. NOT decided: "
              "linearizability / loss-freedom of the CAS retry against the swap over all interleavings."),
     "note": TRUST + " Memory-order floors are argued from the plain data each operation publishes, not copied from today's orders.",
 }
